@@ -369,11 +369,44 @@ func runLBDist(x *X) {
 			total = 160
 		}
 		clean := true
+		// some requests stay in flight during the measurement (slow answers): the rotation is a
+		// property of the order of picks, not of who happens to be busy
+		withInflight := c.Intn(2, "wrr-inflight") == 1
+		var heldPlans []*reqPlan
 		for i := 0; i < total && !x.dead; i++ {
+			if withInflight && len(heldPlans) < 6 && c.Intn(4, "hold-this") == 0 {
+				p := &reqPlan{hold: true}
+				heldPlans = append(heldPlans, p)
+				var id int
+				s.Spawn("wrr-held", func() {
+					r, rid := h.newRequest(reqSpec{client: "192.0.2.1", plan: p})
+					x.mu.Lock()
+					id = rid
+					x.mu.Unlock()
+					h.net.ev("inv", rid, "", 0, "")
+					rec := newRecorder()
+					h.handler.ServeHTTP(rec, r)
+					h.net.ev("ret", rid, "", rec.status, "")
+				})
+				x.Settle(onErr)
+				if !record(servedBy(id), 200) {
+					clean = false
+				}
+				continue
+			}
 			be, st := oneReq("192.0.2.1")
 			if !record(be, st) {
 				clean = false
 			}
+		}
+		if len(heldPlans) > 0 {
+			net.mu.Lock()
+			for _, p := range heldPlans {
+				p.released = true
+			}
+			net.mu.Unlock()
+			x.RunTasks(onErr)
+			x.Probe("wrr-with-inflight")
 		}
 		if !clean || x.dead {
 			break
